@@ -9,10 +9,28 @@ import (
 	"github.com/matrix-org/gomatrixserverlib/spec"
 	"github.com/tidwall/gjson"
 	"github.com/tidwall/sjson"
+	"golang.org/x/crypto/ed25519"
 )
 
 type eventV3 struct {
 	eventV2
+}
+
+// SetUnsigned returns a copy of the event with the given unsigned data.
+// It is overridden so that the copy remains an eventV3.
+func (e *eventV3) SetUnsigned(unsigned interface{}) (PDU, error) {
+	res, err := e.eventV2.SetUnsigned(unsigned)
+	if err != nil {
+		return nil, err
+	}
+	return &eventV3{eventV2: *res.(*eventV2)}, nil
+}
+
+// Sign signs the event in place and returns it.
+// It is overridden so that the returned event remains an eventV3.
+func (e *eventV3) Sign(signingName string, keyID KeyID, privateKey ed25519.PrivateKey) PDU {
+	e.eventV2.Sign(signingName, keyID, privateKey)
+	return e
 }
 
 func (e *eventV3) RoomID() spec.RoomID {
